@@ -234,7 +234,7 @@ type prestate struct {
 func main() {
 	r := mc.NewRun("C10")
 	bound := mc.Pick(r, 1, 2)
-	r.Rule(fmt.Sprintf("E4 over E1: each seam call of one rotation (key manager, signer, certificate authority, storage) is a choice point {ok, fault, crash-after}; all executions with at most %d deviation(s) per rotation, from the states 'after bootstrap' and 'after bootstrap+rotation', for memkm+memca, memkm+gcsca(in-memory storage with hooks), localkm+localca(on disk); non-trivial = distinct (combination, pre-state, deviation set) in which the rotation actually failed or crashed", bound))
+	r.Rule(fmt.Sprintf("E4 over E1: each seam call of one rotation (key manager, signer, certificate authority, storage) is a choice point {ok, fault, crash-after}; all executions with at most %d deviation(s) per rotation, from the states 'after bootstrap' and 'after bootstrap+rotation', for memkm+memca, memkm+gcsca(in-memory storage with hooks), localkm+localca(on disk) and gcpkms+gcsca (Cloud KMS manager over a model service), the latter also from a store after ~390 rotations whose manifest passes 64 KiB with this rotation; one set of objects per execution (same-process endorse and retry), reload, retry with --overwrite and with --overwrite --keep_going; non-trivial = distinct (combination, pre-state, deviation set) in which the rotation actually failed or crashed", bound))
 	r.Assume("key material of memkm lives in 'the key service' and survives a crash of the tool; gcsca/localca are reloaded from storage (their cache is not trusted)")
 	defer kmfx.Cleanup()
 	kmfx.PoolKMSKeys = true // the model service's key material comes from a pool (worlds are never compared with one another here)
